@@ -213,7 +213,7 @@ def random_case(rng):
             {"ident": codec.enc_str("B"), "digits": 2, "fields": [codec.fd_flt(8, 2, 2, "F", "."), codec.fd_lit(5, 11)], "delimiter": None},
         ]
         lines = []
-        for _ in range(rng.randrange(0, 8)):
+        for _ in range(fsup.nlines(rng, 8)):
             r = rng.random()
             if r < 0.35:
                 lines.append("AA " + "".join(rng.choice(pool) for _ in range(6)) + " " + str(rng.randrange(0, 9999)).rjust(4))
@@ -224,10 +224,10 @@ def random_case(rng):
         case["regs"] = regs
     elif fam == "block":
         case["blocks"] = [{"begin": fsup.lit_pat("BEG"), "end": fsup.lit_pat("END")}, {"begin": fsup.lit_pat("#"), "end": fsup.lit_pat("#", True)}]
-        lines = [rng.choice(["BEG " , "END", "# ", "", "x "]) + "".join(rng.choice(pool) for _ in range(rng.randrange(0, 8))) for _ in range(rng.randrange(0, 10))]
+        lines = [rng.choice(["BEG " , "END", "# ", "", "x "]) + "".join(rng.choice(pool) for _ in range(rng.randrange(0, 8))) for _ in range(fsup.nlines(rng, 10))]
     else:
         case["secs"] = [{"fixed": rng.randrange(0, 3)}, {"until": fsup.lit_pat("END")}]
-        lines = [rng.choice(["END", "", "x "]) + "".join(rng.choice(pool) for _ in range(rng.randrange(0, 8))) for _ in range(rng.randrange(0, 10))]
+        lines = [rng.choice(["END", "", "x "]) + "".join(rng.choice(pool) for _ in range(rng.randrange(0, 8))) for _ in range(fsup.nlines(rng, 10))]
     x = "\n".join(lines) + ("\n" if lines and rng.random() < 0.7 else "")
     # characters that codecs / text layers are known to treat specially: a leading U+FEFF (BOM look-alike,
     # legitimate content), U+FEFF elsewhere, NEL / LS / PS line-separator look-alikes, form feed, NUL
